@@ -747,7 +747,7 @@ def twin(tier, seed):
         one(h)
         n_sys += 1
     evaluations += n_sys
-    n_rand_target = 1000 if tier == 'quick' else 40000
+    n_rand_target = 1000 if tier == 'quick' else 60000
     budget = 16.0 if tier == 'quick' else 500.0     # safety net only; the counts above are the bound
     n_rand = 0
     while n_rand < n_rand_target:
